@@ -30,6 +30,7 @@ A1 == {"c1"}
 Role_C1 == [a \in A1 |-> "committer"]
 Idx_1 == [a \in A1 |-> 1]
 Sep_1 == [a \in A1 |-> a]
+Prog_1AppCreateApp == [a \in A1 |-> <<App(1), Create, App(2)>>]
 Prog_1AppThenApp == [a \in A1 |-> <<App(1), App(2)>>]
 Prog_1AppExplicit == [a \in A1 |-> <<[t |-> "append", add |-> <<1>>, style |-> "explicit"], [t |-> "append", add |-> <<2>>, style |-> "explicit"]>>]
 Prog_1DelThenApp == [a \in A1 |-> <<Del({961}), App(2)>>]
@@ -47,6 +48,7 @@ Sep_3 == [a \in A3 |-> a]
 Shared_3 == [a \in A3 |-> "h"]
 
 Prog_2Create == [a \in A2 |-> <<Create, App(Idx_2[a])>>]
+Prog_CrashThenOpen == [a \in A2 |-> IF a = "c1" THEN <<App(1)>> ELSE <<Create, App(2)>>]
 Prog_2App == [a \in A2 |-> IF a = "c1" THEN <<App(1)>> ELSE <<App(2)>>]
 Prog_AppDel == [a \in A2 |-> IF a = "c1" THEN <<App(1)>> ELSE <<Del({961})>>]
 Prog_ExpDs == [a \in A2 |-> IF a = "c1" THEN <<Exp(2)>> ELSE <<DelSnapInit(2)>>]
